@@ -82,3 +82,14 @@ package rootmulti
 //@   loop 1 invariant iterpos(1) >= 0 && sp.calls >= old(sp.calls) && (sp.calls > old(sp.calls) ==> sp.recent == pruningOpts.keepRecent && sp.every == pruningOpts.keepEvery) && rs.pruningOpts == pruningOpts
 //@   ensures [recorded] rs.pruningOpts == pruningOpts
 //@   ensures [propagated] sp.calls > old(sp.calls) ==> sp.recent == pruningOpts.keepRecent && sp.every == pruningOpts.keepEvery
+
+// C14: the multistore routes a query to exactly one substore and forwards height, key data and the prove flag
+// unchanged; without a proof request the substore's answer is returned as it is.
+//@ func (rs *Store) Query(req abci.RequestQuery) (res abci.ResponseQuery)
+//@   props C14
+//@   may_panic
+//@   modifies everything
+//@   keeps q.
+//@   ensures [once] q.calls <= old(q.calls) + 1
+//@   ensures [forwarded] q.calls == old(q.calls) + 1 ==> q.height == req.Height && q.data == req.Data && q.prove == req.Prove
+//@   ensures [passed] q.calls == old(q.calls) + 1 && !req.Prove ==> res.Height == q.resheight && res.Value == q.resvalue
